@@ -194,6 +194,11 @@ def sany(work, module):
     if p.returncode != 0 or '*** Errors' in out or 'Fatal errors' in out \
             or 'Could not find module' in out or 'Parse Error' in out:
         raise MachineryError('SANY failed on %s:\n%s' % (module, out[-3000:]))
+    # two modules EXTENDed side by side must not define the same name differently: SANY only
+    # warns and silently keeps one of them
+    clash = set(re.findall(r"Warning: the (?:definition|declaration) of '(\w+)' conflicts", out)) - {'F', 'Dev'}
+    if clash:
+        raise MachineryError('SANY: conflicting definitions in %s: %s' % (module, sorted(clash)))
 
 
 # --------------------------------------------------------------------------
@@ -238,7 +243,11 @@ def validate_traces(work, module, cases, header=None, cfg=None, chunk=1500,
         results = list(ex.map(one, files))
     for fn, r in zip(files, results):
         if r.rc != 0 or r.errors:
-            tail = '\n'.join(r.out.splitlines()[-60:])
+            os.makedirs(os.path.join(VERIF, 'out'), exist_ok=True)
+            with open(os.path.join(VERIF, 'out', 'last_tlc_error.log'), 'w') as f_:
+                f_.write(r.out)
+            shutil.copy(fn, os.path.join(VERIF, 'out', 'last_trace_chunk.json'))
+            tail = '\n'.join([x for x in r.out.splitlines() if not x.startswith('  |')][-30:])
             raise MachineryError('trace validation (%s) failed on %s: rc=%s %s\n%s'
                                  % (module, fn, r.rc, r.errors[:3], tail))
         for v in r.verdicts:
